@@ -168,24 +168,30 @@ def _seq_shard(first_idx):
     acc = Acc()
     first = ops[first_idx]
     finals = set()
-    for d in range(0, depth):
-        for rest in itertools.product(ops, repeat=d):
-            seq = (first,) + rest
-            acc.count(evaluations=1, states=1)
-            obs = run_sequence_fast(seq, acc)
-            finals.add(obs)
+    for init_auto in (0, 10**9):       # start from a non-initial configuration too (auto-advance given to the constructor)
+        for d in range(0, depth):
+            for rest in itertools.product(ops, repeat=d):
+                seq = (first,) + rest
+                acc.count(evaluations=1, states=1)
+                obs = run_sequence_fast(seq, acc, init_auto)
+                finals.add((init_auto, obs))
     acc.count(nontrivial=len(finals))
     if first_idx < 3:
         acc.sample({"sequence": ((first,) + tuple(ops[:depth - 1])), "model_final": "see outcomes"})
     return acc
 
 
-def run_sequence_fast(seq, acc):
+def run_sequence_fast(seq, acc, init_auto=0):
     """Same comparison as run_sequence but without a scheduler (used once completion of every operation kind has
     been established by the scheduled runs - a deadlocking operation would hang here, so those kinds are skipped)."""
-    clock = FakeClock(mk_instant(0))
-    st = [0, 0]
+    clock = FakeClock(mk_instant(0), Duration.from_nanoseconds(init_auto)) if init_auto else FakeClock(mk_instant(0))
+    st = [0, init_auto]
+    seq0 = seq
+    if init_auto:
+        seq = (("ctor_auto", init_auto),) + tuple(seq)   # recorded in replays; skipped when applying
     for i, op in enumerate(seq):
+        if op[0] == "ctor_auto":
+            continue
         if op[0] in _SEQ_CFG["hanging"]:
             return ("skipped-hanging", op[0])
         exp_raise = False
